@@ -53,6 +53,18 @@ def run_drivers(repo, verif, names, outdir, timeout=1500):
 # which driver can search counterexamples for which unit
 UNIT_DRIVERS = {
     "compaction_retention": ["iter::retention_enum"],
+    "pipeline_commit": ["transaction::conflict_enum"],
+    "txn_commit": ["transaction::conflict_enum"],
+    "oracle": ["transaction::conflict_enum"],
+    "point_read": ["snapshot::reads_enum_quick"],
+    "visibility_filter": ["snapshot::reads_enum_quick"],
+    "scan_filter": ["transaction::cursor_enum_quick"],
+    "range_bounds": ["transaction::cursor_enum_quick"],
+    "point_in_time": ["snapshot::timetravel_enum_quick"],
+    "flush_cleanup": ["wal::crash_enum_quick"],
+    "wal_reader": ["wal::log_enum_quick"],
+    "wal_writer": ["wal::log_enum_quick"],
+    "table_skip": ["sstable::table::roundtrip_enum_quick"],
 }
 
 
